@@ -113,6 +113,9 @@ func valName(v ssa.Value) string {
 	case *ssa.Global:
 		return x.Name()
 	case *ssa.Call:
+		if f := x.Call.StaticCallee(); f != nil && baselineNameHook != nil && baselineNameHook(f) != "" {
+			return baselineNameHook(f) + "()" // a renamed library function keeps the name construct keys know it by
+		}
 		if f := x.Call.StaticCallee(); f != nil {
 			return f.Name() + "()"
 		}
